@@ -1947,6 +1947,172 @@ def unit5_specs():
 UNIT5_CLASSES = ["LinkedLayer", "LinkedLayers"]
 
 
+# ---------------------------------------------------------------------------------------------
+# unit 6: descriptor-wrapping payloads (SmartObjectLayerData, PlacedLayerData, TypeToolObjectSetting)
+# ---------------------------------------------------------------------------------------------
+def desc_block2_tokens(b):
+    import desc_common as dc
+    if dc.block_kind(b) != 2:
+        raise NotRep("not a plain DescriptorBlock2: %r" % type(b).__name__)
+    try:
+        return [dc.block_tokens(b, 2)]
+    except dc.NotRep as e:
+        raise NotRep(str(e))
+
+
+@contextlib.contextmanager
+def no_engine_data():
+    """TypeToolObjectSetting.read replaces text_data[b'EngineData'].value by a parsed EngineData object inside a
+    `try ... except Exception` - the model keeps the bytes; so does the real reader when the parse fails"""
+    import psd_tools.psd.tagged_blocks as TB
+    saved = TB.EngineData
+
+    class _NoParse:
+        @staticmethod
+        def frombytes(*a, **k):
+            raise ValueError("engine data left as bytes (C18)")
+    TB.EngineData = _NoParse
+    try:
+        yield
+    finally:
+        TB.EngineData = saved
+
+
+def gen_desc_block(rng, kind=1):
+    import desc_common as dc
+    D = dc._D()
+    g = dc.Gen(rng)
+    body = g.descriptor(1 + rng.randrange(2))
+    if kind == 1:
+        return D.DescriptorBlock(body._items, name=body.name, classID=body.classID)
+    return D.DescriptorBlock2(body._items, name=body.name, classID=body.classID, version=rng.choice([0, 1, 2 ** 32 - 1]))
+
+
+def desc_excluded(*blocks):
+    import desc_common as dc
+    for b in blocks:
+        why = dc._excluded_reason(b)
+        if why:
+            return why
+    return None
+
+
+class DescWrapSpec(Spec):
+    offsets = (0, 1, 2, 3, 4, 7, 8, 12, 50, 52)
+
+    def contexts(self):
+        return [(1, 4, None), (2, 1, None)]
+
+
+class SmartObjectSpec(DescWrapSpec):
+    name = "SmartObjectLayerData"
+
+    def K(self):
+        return _TB().SmartObjectLayerData
+
+    def tokens(self, x):
+        return " ".join([t_bytes(x.kind), t_nat(x.version), *desc_block_tokens(x.data)])
+
+    def excluded(self, x, pad=None, rpad=None):
+        if x.kind != b"soLD" or x.version not in (4, 5):
+            return "rejected-by-validator"
+        return desc_excluded(x.data)
+
+    def instances(self, rng, quick):
+        K = self.K()
+        out = [("generated", K(b"soLD", rng.choice([4, 5]), gen_desc_block(rng))) for _ in range(6 if quick else 120)]
+        bad = K(b"soLD", 5, gen_desc_block(rng)); bad.version = 3
+        out.append(("excluded", bad))
+        bad = K(b"soLD", 5, gen_desc_block(rng)); bad.kind = b"abcd"
+        out.append(("excluded", bad))
+        bad = K(b"soLD", 5, gen_desc_block(rng)); bad.version = 2 ** 32
+        out.append(("breaking", bad))
+        return out
+
+
+class PlacedLayerSpec(DescWrapSpec):
+    name = "PlacedLayerData"
+
+    def K(self):
+        return _TB().PlacedLayerData
+
+    def tokens(self, x):
+        try:
+            uuid = x.uuid.encode("macroman") if isinstance(x.uuid, str) else bytes(x.uuid)
+        except UnicodeError:
+            raise NotRep("uuid is not MacRoman text")
+        return " ".join([t_bytes(x.kind), t_nat(x.version), hx(uuid), t_nat(x.page), t_nat(x.total_pages), t_nat(x.anti_alias),
+                         t_nat(x.layer_type), *t_list(list(x.transform), lambda v: [str(bits_of(v))]), *desc_block2_tokens(x.warp)])
+
+    def excluded(self, x, pad=None, rpad=None):
+        if x.version != 3:
+            return "rejected-by-validator"
+        if len(x.kind) != 4:
+            return "4s-field-not-4-bytes"
+        return desc_excluded(x.warp)
+
+    def instances(self, rng, quick):
+        K, C = self.K(), _C()
+        out = []
+        for i in range(6 if quick else 120):
+            out.append(("generated", K(rng.choice([b"plcL", b"abcd"]), 3, rng.choice(["", "5a96c404-ab9c-1177-97ef-96ca454b82b7", "u" * 255]),
+                                       rng.choice([0, 1, 2 ** 32 - 1]), rng.choice([0, 1, 7]), rng.choice([0, 16]),
+                                       list(C.PlacedLayerType)[i % len(C.PlacedLayerType)],
+                                       tuple(float_of(rng.randrange(2 ** 64)) if rng.random() < 0.5 else rng.choice([0.0, 1.0, -0.0, 100.5])
+                                             for _ in range(8)), gen_desc_block(rng, 2))))
+        bad = K(b"plcL", 3, "", warp=gen_desc_block(rng, 2)); bad.version = 2
+        out.append(("excluded", bad))
+        out.append(("excluded", K(b"pl", 3, "", warp=gen_desc_block(rng, 2))))
+        out.append(("breaking", K(b"plcL", 3, "", transform=(0.0,) * 7, warp=gen_desc_block(rng, 2))))
+        out.append(("breaking", K(b"plcL", 3, "u" * 256, warp=gen_desc_block(rng, 2))))
+        return out
+
+
+class TypeToolSpec(DescWrapSpec):
+    name = "TypeToolObjectSetting"
+
+    def K(self):
+        return _TB().TypeToolObjectSetting
+
+    def tokens(self, x):
+        return " ".join([t_nat(x.version), *t_list(list(x.transform), lambda v: [str(bits_of(v))]), t_nat(x.text_version),
+                         *desc_block_tokens(x.text_data), t_nat(x.warp_version), *desc_block_tokens(x.warp), t_int(x.left), t_int(x.top),
+                         t_int(x.right), t_int(x.bottom)])
+
+    def excluded(self, x, pad=None, rpad=None):
+        if x.text_version != 50 or x.warp_version != 1:
+            return "rejected-by-validator"
+        return desc_excluded(x.text_data, x.warp)
+
+    def instances(self, rng, quick):
+        import desc_common as dc
+        K, D = self.K(), dc._D()
+        i32 = lambda: rng.choice([0, -1, 2 ** 31 - 1, -2 ** 31, rng.randrange(-5000, 5000)])
+        out = []
+        for i in range(6 if quick else 120):
+            text = gen_desc_block(rng)
+            if i % 2 == 0:                          # with an EngineData raw value (kept as bytes)
+                text[b"EngineData"] = D.RawData(bytes(rng.randrange(256) for _ in range(rng.choice([0, 3, 40]))))
+            out.append(("generated", K(rng.choice([0, 1, 65535]), tuple(rng.choice([0.0, 1.0, 300.25, float_of(rng.randrange(2 ** 64))]) for _ in range(6)),
+                                       50, text, 1, gen_desc_block(rng), i32(), i32(), i32(), i32())))
+        bad = copy.deepcopy(out[0][1]); bad.text_version = 1
+        out.append(("excluded", bad))
+        bad = copy.deepcopy(out[0][1]); bad.warp_version = 2
+        out.append(("excluded", bad))
+        bad = copy.deepcopy(out[0][1]); bad.left = 2 ** 31
+        out.append(("breaking", bad))
+        bad = copy.deepcopy(out[0][1]); bad.transform = (0.0,) * 5
+        out.append(("breaking", bad))
+        return out
+
+
+def unit6_specs():
+    return [SmartObjectSpec(), PlacedLayerSpec(), TypeToolSpec()]
+
+
+UNIT6_CLASSES = ["SmartObjectLayerData", "PlacedLayerData", "TypeToolObjectSetting"]
+
+
 def harvest_by_class(files):
     """every element instance of the parsed fixtures, by exact class: {class: [instances]}"""
     import codec_common as cc
@@ -2010,7 +2176,7 @@ def unit2_witnesses(ctx):
 # ---------------------------------------------------------------------------------------------
 # the check
 # ---------------------------------------------------------------------------------------------
-MODEL_CLASSES = list(UNIT1_CLASSES) + UNIT2_CLASSES + UNIT3_CLASSES + UNIT4_CLASSES + UNIT5_CLASSES
+MODEL_CLASSES = list(UNIT1_CLASSES) + UNIT2_CLASSES + UNIT3_CLASSES + UNIT4_CLASSES + UNIT5_CLASSES + UNIT6_CLASSES
 
 
 def run(ctx):
@@ -2044,6 +2210,9 @@ def _run(ctx):
     unit3_witnesses(ctx)
     run_units(ctx, unit4_specs(), sink, seen_cls, fail_cls, excluded_log, "unit4")
     run_units(ctx, unit5_specs(), sink, seen_cls, fail_cls, excluded_log, "unit5")
+    with no_engine_data():
+        sink6 = harvest_by_class(cc.fixtures()) if _TB().TypeToolObjectSetting in sink else sink
+        run_units(ctx, unit6_specs(), sink6, seen_cls, fail_cls, excluded_log, "unit6")
     seen_cls["MetadataSetting"] += seen_cls.get("MetadataSettings", 0)
     seen_cls["Annotation"] += seen_cls.get("Annotations", 0)
     ctx.extra["payload_points_excluded_by_WF (information; format-excluded, see notes)"] = dict(excluded_log)
@@ -2134,16 +2303,23 @@ def _run(ctx):
         "linked_child_id_below_version5_not_read, replayed as excluded instances). Outside the model: a field the writer "
         "dereferences while it is None (AttributeError / TypeError instead of struct.error) - not generated.",
     ]
+    ctx.notes += [
+        "Unit 6 (descriptor-wrapping payloads of psd/tagged_blocks.py) is modelled and proved: SmartObjectLayerData (SoLd / SoLE), "
+        "PlacedLayerData (PlLd / plLd; DescriptorBlock2 warp), TypeToolObjectSetting (TySh; text and warp DescriptorBlocks): "
+        "<class>_roundtrip anywhere in a stream (the reader stops before the final write_padding), _rewrite_identical, "
+        "_written_is_length, tagged_block_<class> with the inner padding; ties unit6_tied (validator options, PlacedLayerType, "
+        "registry), unit6_calls_tied. TypeToolObjectSetting.read's in-place parse of text_data[b'EngineData'] (try / except) is "
+        "not modelled: the value stays the bytes (what the parsed object writes is C18's); the harness drives the real reader with "
+        "that parse disabled (harness/payload_common.no_engine_data), which is the reader's own fallback path.",
+    ]
     # the skeleton's notes written before the payload classes were brought in
     ctx.notes[:] = [n.replace("Stated in DESIGN, not proved here: codec laws of the payload classes (descriptors, effects, patterns, linked "
                               "layers, vector data, adjustments, image-resource payloads), LayerInfoBlock (Lr16/Lr32) as a structured payload.",
                               "Stated in DESIGN, not proved here: codec laws of the remaining payload classes (vector data, adjustments, "
-                              "filter effects, type tool / placed layer / smart object data, engine data, image-resource payloads); see "
-                              "model_coverage.") for n in ctx.notes]
+                              "filter effects, engine data, image-resource payloads); see model_coverage.") for n in ctx.notes]
     ctx.assumptions[:] = [a.replace("payload classes (tagged-block data, image-resource data, effects, patterns, ...) are opaque bytes in "
                                     "the model", "the payload classes listed under model_coverage as opaque (vector data, adjustments, "
-                                    "filter effects, type tool / placed layer / smart object data, image-resource payloads, ...) are "
-                                    "opaque bytes in the model") for a in ctx.assumptions]
+                                    "filter effects, engine data, image-resource payloads, ...) are opaque bytes in the model") for a in ctx.assumptions]
     ctx.assumptions += [
         "payload classes: doubles are compared as 64-bit patterns; pascal strings (Annotation) are their MacRoman bytes (C19)",
         "payload classes: CPython's fp.read(n) raises OverflowError for n >= 2**63 (ssize_t); the cursor readers of Model/Codec.lean "
